@@ -284,3 +284,5 @@ def run(ctx: Ctx, repo: Repo, tier: str) -> None:
     rule_td_to_dict(ctx, repo)
     from .memo_rules import infer_no_memory
     infer_no_memory(ctx, repo, "R-C04.6")
+    from .compat_rules import compat_predicates
+    compat_predicates(ctx, repo, "R-C04.7", ("types_equal", "is_typed_dict", "is_any"))
